@@ -42,9 +42,7 @@ navis.set_loggers('ERROR')
 PERMS = ['xyz', 'xzy', 'yxz', 'yzx', 'zxy', 'zyx']
 IDENT_POSE = [1, 1, 1, 0, 0, 0, 'xyz', 0, 0, 0]
 
-SIG_MESH_SNAP_CONN = 'MeshNeuron.snap/to=connectors/returns-nearest-vertex'
 SIG_MESH_STRADDLE = 'in_volume/MeshNeuron/straddling-face/vertices-in-neither-part'
-SIG_MESH_VID = 'in_volume/MeshNeuron/straddling-face/stale-vertex_id'
 
 
 # ---------------------------------------------------------------------------------------------------------------
@@ -806,12 +804,10 @@ def run_mesh(ctx, case):
                      f'{call}(MeshNeuron, mode={mode}) vertices|connector:vertex_id|#faces vs model', case)
             ok = all(0 <= j < len(kept) and kept[j] == att[cid] for cid, j in zip(kc, vid))
             ctx.oracle(ok, f'{call}(MeshNeuron, mode={mode}): `vertex_id` {list(zip(kc, vid))} does not address the '
-                           f'connectors\' own vertices {att} among kept vertices {kept}', case,
-                       signature=SIG_MESH_VID if straddle else None)
-        subset = set(is_int_list(m_subset))
-        own = sorted(cid for cid, a in att.items() if a in subset)
+                           f'connectors\' own vertices {att} among kept vertices {kept}', case)
+        own = sorted(cid for cid, a in att.items() if a in set(kept))
         ctx.oracle(sorted(kc) == own, f'{call}(MeshNeuron, mode={mode}): kept connectors {sorted(kc)} != connectors whose '
-                                      f'nearest vertex is selected {own}', case)
+                                      f'nearest vertex survives in the pruned mesh {own}', case)
         res[mode] = (kept, kc)
     ctx.count('mesh_class', 'straddle' if straddle else 'no-straddle')
     if len(res) == 2:
@@ -822,7 +818,8 @@ def run_mesh(ctx, case):
                    signature=SIG_MESH_STRADDLE if straddle else None)
         allc = [c[0] for c in (conns or [])]
         ok = ctx.ask(f"c18.chkpart {ints(allc)} | {ints(res['IN'][1])} | {ints(res['OUT'][1])}") == '1'
-        ctx.oracle(ok, f"MeshNeuron: connectors of IN {res['IN'][1]} and OUT {res['OUT'][1]} do not partition {allc}", case)
+        ctx.oracle(ok, f"MeshNeuron: connectors of IN {res['IN'][1]} and OUT {res['OUT'][1]} do not partition {allc}", case,
+                   signature=SIG_MESH_STRADDLE if straddle else None)
 
 
 # ---------------------------------------------------------------------------------------------------------------
@@ -973,11 +970,10 @@ def run_snap(ctx, case):
     got_d = [float(got_d)] if single else [float(v) for v in np.asarray(got_d)]
     qq = [qs[0]] if single else qs
     model = ctx.ask(f"c18.snap {pts_str(tdata)} | {ints(tids) if tids else ''} | {pts_str(qq)}").split(';')
-    sig = SIG_MESH_SNAP_CONN if (kind == 'mesh' and to == 'connectors') else None
     for q, gi, gd, mo in zip(qq, got_id, got_d, model):
         mi, md2 = (int(v) for v in mo.split(':'))
         impl = f'{gi}:{gd!r}'
-        ctx.corr(impl, f'{mi}:{math.sqrt(md2)!r}', f'{kind}.snap(to={to}) (id, distance) vs model argmin', case, signature=sig)
+        ctx.corr(impl, f'{mi}:{math.sqrt(md2)!r}', f'{kind}.snap(to={to}) (id, distance) vs model argmin', case)
         # property on navis' own answer: the id/row it returns is a true nearest neighbour, the distance is exact
         if tids:
             rows = [i for i, v in enumerate(tids) if v == gi]
@@ -988,7 +984,7 @@ def run_snap(ctx, case):
         exact = row >= 0 and gd == math.sqrt(d2)
         ok = exact and ctx.ask(f'c18.chknear {pts_str(tdata)} | {q[0]},{q[1]},{q[2]} | {row} | {d2}') == '1'
         ctx.oracle(ok, f'{kind}.snap({q}, to={to}) returned ({gi}, {gd}) which is not (nearest {to[:-1]}, exact distance); '
-                       f'nearest is {mi} at sqrt({md2})', case, signature=sig)
+                       f'nearest is {mi} at sqrt({md2})', case)
 
 
 def _unique(data, p):
@@ -1273,8 +1269,9 @@ def run(ctx):
         'pyoctree is not installed: in_volume_pyoc is not exercised; the scipy convex-hull fallback is only compared on convex volumes',
         'snap is only compared on inputs with a unique nearest neighbour (kd-tree tie order is not an observable)',
         'prevent_fragments=True (adds connecting nodes on purpose) is outside the partition statement and not generated',
-        'MeshNeuron partition oracle is strict on meshes without straddling faces; with straddling faces the loss of vertices is the '
-        'open finding ' + SIG_MESH_STRADDLE,
+        'MeshNeuron vertex / connector partition oracles are strict on meshes without straddling faces; with straddling faces the '
+        'loss of vertices (and of the connectors sitting on them) is the open finding ' + SIG_MESH_STRADDLE + '; the vertex_id '
+        'and own-connector oracles are strict on every mesh',
     ]
     ctx.extra['backends_available'] = {'ncollpyde': _isect.ncollpyde is not None, 'pyoctree': _isect.pyoctree is not None,
                                        'scipy': True}
